@@ -53,6 +53,7 @@ unsigned g_k;            /* log2 of the alignment the ABI places the member with
 	X(mt.type->size == g_S && mt.type->align == g_malign)
 
 int g_kind0;
+extern int g_no_error;   /* stubs/base.c; DFCC havocs every static, so the harness sets it */
 
 static struct structbuilder am_sb;
 static struct type am_st, am_mt;
@@ -76,4 +77,4 @@ static char am_name[2] = "m";
 	mt.type = &am_mt; mt.qual = in_qual; mt.expr = 0; \
 	g_size0 = in_size0; g_bits0 = in_bits0; g_P = 8 * in_size0 - in_bits0; g_align0 = in_align0; g_flex0 = in_flex0; \
 	g_pack = in_pack; g_last = &am_head; g_S = in_msize; g_msize = in_msize; g_W = in_width; g_malign = in_malign; \
-	g_kind0 = in_tkind
+	g_kind0 = in_tkind; g_no_error = 0
